@@ -331,7 +331,12 @@ pub fn run(ctx: &Ctx) {
     run.space(&atoms("C.atoms", ATOMS_C, t.pick(5, 6)), &two, false);
     run.space(&atoms("C.atoms_x_cfg", ATOMS_C, t.pick(3, 5)), &all_cfgs, false);
     for sp in contexts(|m| t.pick(m.min(5), m), true) {
-        run.space(&sp, &two, false);
+        if sp.name == "D.comment" {
+            // the `--` search of check_comments walks the whole body: every body, with the check on
+            run.space(&sp, &[NEUTRAL, DEFAULT, NEUTRAL | CHECK_COMMENTS, 127], false);
+        } else {
+            run.space(&sp, &two, false);
+        }
     }
     run.space(&context("Init.bom", &[b"", b"\xEF", b"\xEF\xBB", b"\xEF\xBB\xBF", b"\xEF\xBB\xBF\xEF\xBB\xBF"], b"<?xml >a/", t.pick(5, 6), &[b""], false), &two, false);
 
